@@ -524,63 +524,23 @@ CASES += [
     dict(name="lt-set-weight-get-mut-ok", file="src/repr/wmc.rs", rule="LT", props=["C07"], expect=None,
          old="""        self.var_to_val[n] = Some((low, high));""", new="""        *self.var_to_val.get_mut(n).unwrap() = Some((low, high));"""),
     dict(name="td-implied-filtered-by-order", file=DN, rule="TD", props=["C06"], expect="implied-set",
-         old="""                let new_assgn = sat.difference_iter().filter(|x| x.label() != cur_v);
-                let r = self.conjoin_implied(new_assgn, BddPtr::true_ptr());
-                sat.pop();
-                r
-            }
-            DecisionResult::SATOrPartial => {
-                let sub = self.topdown_h(cnf, sat, level + 1, cache);
-                let new_assgn = sat.difference_iter().filter(|x| x.label() != cur_v);
-                let r = self.conjoin_implied(new_assgn, sub);
-                sat.pop();
-                r
-            }
-        };
-        let low_bdd""",
-         new="""                let new_assgn = sat.difference_iter().filter(|x| x.label().value() > cur_v.value());
-                let r = self.conjoin_implied(new_assgn, BddPtr::true_ptr());
-                sat.pop();
-                r
-            }
-            DecisionResult::SATOrPartial => {
-                let sub = self.topdown_h(cnf, sat, level + 1, cache);
-                let new_assgn = sat.difference_iter().filter(|x| x.label() != cur_v);
-                let r = self.conjoin_implied(new_assgn, sub);
-                sat.pop();
-                r
-            }
-        };
-        let low_bdd"""),
+         old="""        let high_bdd = match sat.decide(Literal::new(cur_v, true)) {
+            DecisionResult::UNSAT => BddPtr::false_ptr(),
+            DecisionResult::SAT => {
+                let new_assgn = sat.difference_iter().filter(|x| x.label() != cur_v);""",
+         new="""        let high_bdd = match sat.decide(Literal::new(cur_v, true)) {
+            DecisionResult::UNSAT => BddPtr::false_ptr(),
+            DecisionResult::SAT => {
+                let new_assgn = sat.difference_iter().filter(|x| x.label().value() > cur_v.value());"""),
     dict(name="td-filter-not-eq-ok", file=DN, rule="TD", props=["C06"], expect=None,
-         old="""                let new_assgn = sat.difference_iter().filter(|x| x.label() != cur_v);
-                let r = self.conjoin_implied(new_assgn, BddPtr::true_ptr());
-                sat.pop();
-                r
-            }
-            DecisionResult::SATOrPartial => {
-                let sub = self.topdown_h(cnf, sat, level + 1, cache);
-                let new_assgn = sat.difference_iter().filter(|x| x.label() != cur_v);
-                let r = self.conjoin_implied(new_assgn, sub);
-                sat.pop();
-                r
-            }
-        };
-        let low_bdd""",
-         new="""                let new_assgn = sat.difference_iter().filter(|x| !(x.label() == cur_v));
-                let r = self.conjoin_implied(new_assgn, BddPtr::true_ptr());
-                sat.pop();
-                r
-            }
-            DecisionResult::SATOrPartial => {
-                let sub = self.topdown_h(cnf, sat, level + 1, cache);
-                let new_assgn = sat.difference_iter().filter(|x| x.label() != cur_v);
-                let r = self.conjoin_implied(new_assgn, sub);
-                sat.pop();
-                r
-            }
-        };
-        let low_bdd"""),
+         old="""        let high_bdd = match sat.decide(Literal::new(cur_v, true)) {
+            DecisionResult::UNSAT => BddPtr::false_ptr(),
+            DecisionResult::SAT => {
+                let new_assgn = sat.difference_iter().filter(|x| x.label() != cur_v);""",
+         new="""        let high_bdd = match sat.decide(Literal::new(cur_v, true)) {
+            DecisionResult::UNSAT => BddPtr::false_ptr(),
+            DecisionResult::SAT => {
+                let new_assgn = sat.difference_iter().filter(|x| !(x.label() == cur_v));"""),
     dict(name="pm-set-true-keeps-false", file=MODEL, rule="PM", props=["C15"], expect="set:two-sets",
          old="""            self.true_assignments.insert(label);
             self.false_assignments.remove(label);""",
@@ -734,4 +694,102 @@ CASES += [
                     0 => 0.0,
                     _ => total / (cnt as f64),
                 })"""),
+]
+
+# ------------------------------------------------------------------ BB (C12): branch-and-bound siblings
+CASES += [
+    dict(name="bb1-leaf-witness-mismatch", file=RB, rule="BB", props=["C12"], expect="marginal_map_h:BB1",
+         old="""                if possible_best.0 > cur_lb {
+                    (possible_best.0, cur_assgn)""",
+         new="""                if possible_best.0 > cur_lb {
+                    (possible_best.0, cur_best)"""),
+    dict(name="bb1-leaf-keeps-worse", file=RB, rule="BB", props=["C12"], expect="meu_h:BB1",
+         old="""                if possible_best.1 > cur_lb.1 {""", new="""                if possible_best.1 < cur_lb.1 {"""),
+    dict(name="bb2-both-branches-true", file=RB, rule="BB", props=["C12"], expect="marginal_map_h:BB2",
+         old="""                false_model.set(*x, false);
+
+                let true_ub = self.marginal_map_eval""",
+         new="""                false_model.set(*x, true);
+
+                let true_ub = self.marginal_map_eval"""),
+    dict(name="bb3-order-crossed", file=RB, rule="BB", props=["C12"], expect="bb_h:BB3",
+         old="""                let order = if true_ub == BBSemiring::choose(&true_ub, &false_ub) {
+                    [(true_ub, true_model), (false_ub, false_model)]""",
+         new="""                let order = if true_ub == BBSemiring::choose(&true_ub, &false_ub) {
+                    [(true_ub, false_model), (false_ub, true_model)]"""),
+    dict(name="bb5-prune-inverted", file=RB, rule="BB", props=["C12"], expect="meu_h:BB5",
+         old="""                    if upper_bound.1 > best_lb.1 {""", new="""                    if upper_bound.1 < best_lb.1 {"""),
+    dict(name="bb6-assigned-children-swapped", file=RB, rule="BB", props=["C12"], expect="bb_ub:BB6",
+         old="""                    // reached a base case. We return the accumulated value.
+                    Some(true) => high,
+                    Some(false) => low,""",
+         new="""                    // reached a base case. We return the accumulated value.
+                    Some(true) => low,
+                    Some(false) => high,"""),
+    dict(name="bb6-sum-weights-crossed", file=RB, rule="BB", props=["C12"], expect="eu_ub:BB6",
+         old="""                            (*false_w * low) + (*true_w * high)""", new="""                            (*true_w * low) + (*false_w * high)"""),
+    dict(name="bb6w-assigned-weight-wrong-side", file=RB, rule="BB", props=["C12"], expect="marginal_map_eval:BB6w",
+         old="""            if lit.polarity() {
+                v = v * (*h);
+            } else {
+                v = v * (*l);
+            }""",
+         new="""            if lit.polarity() {
+                v = v * (*l);
+            } else {
+                v = v * (*h);
+            }"""),
+    dict(name="bb7-driver-bound-of-other-assignment", file=RB, rule="BB", props=["C12"], expect="marginal_map:BB7",
+         old="""        self.marginal_map_h(
+            lower_bound.0,
+            cur_assgn,""",
+         new="""        self.marginal_map_h(
+            lower_bound.0,
+            PartialModel::from_litvec(&[], num_vars),"""),
+    dict(name="bb1-leaf-reordered-ok", file=RB, rule="BB", props=["C12"], expect=None,
+         old="""                if possible_best.0 > cur_lb {
+                    (possible_best.0, cur_assgn)
+                } else {
+                    (cur_lb, cur_best)
+                }""",
+         new="""                if possible_best.0 <= cur_lb {
+                    (cur_lb, cur_best)
+                } else {
+                    (possible_best.0, cur_assgn)
+                }"""),
+    dict(name="bb5-prune-mirrored-ok", file=RB, rule="BB", props=["C12"], expect=None,
+         old="""                    if upper_bound.0 > best_lb {""", new="""                    if best_lb < upper_bound.0 {"""),
+]
+
+CASES += [
+    dict(name="dp-sexpr-double-negation-wrong", file="src/repr/logical_expr.rs", rule="DP", props=["C17"], expect="from_sexpr::helper:Not",
+         old="""                    _ => LogicalExpr::Not(Box::new(helper(l.as_ref(), mapping))),""",
+         new="""                    LogicalSExpr::Not(_) => helper(l.as_ref(), mapping),
+                    _ => LogicalExpr::Not(Box::new(helper(l.as_ref(), mapping))),"""),
+    dict(name="dp-sexpr-double-negation-ok", file="src/repr/logical_expr.rs", rule="DP", props=["C17"], expect=None,
+         old="""                    _ => LogicalExpr::Not(Box::new(helper(l.as_ref(), mapping))),""",
+         new="""                    LogicalSExpr::Not(e) => helper(e.as_ref(), mapping),
+                    _ => LogicalExpr::Not(Box::new(helper(l.as_ref(), mapping))),"""),
+]
+
+CASES += [
+    dict(name="lc-assignment-and-polarity", file=BB, rule="LC", props=["C05"], expect="compile_cnf_with_assignments:literal-status",
+         old="""                    Some(v) if v == lit.polarity() => {""", new="""                    Some(v) if v && lit.polarity() => {"""),
+    dict(name="lc-status-inverted", file=BB, rule="LC", props=["C05"], expect="compile_cnf_with_assignments:literal-status",
+         old="""                    Some(v) if v == lit.polarity() => {""", new="""                    Some(v) if v != lit.polarity() => {"""),
+    dict(name="lc-decide-scan-ignores-value", file=UP, rule="LC", props=["C09"], expect="UnitPropagate::decide:literal-status",
+         old="""                    Some(v) if lit.polarity() == v => {""", new="""                    Some(_v) if lit.polarity() => {"""),
+    dict(name="lc-xor-form-ok", file=BB, rule="LC", props=["C05"], expect=None,
+         old="""                    Some(v) if v == lit.polarity() => {""", new="""                    Some(v) if !(v ^ lit.polarity()) => {"""),
+    dict(name="gl8-insert-key-swapped", file="src/builder/cache/all_app.rs", rule="GL", props=["C16"], expect="AllIteTable:GL8",
+         old="""                self.table
+                    .insert((f, g, h), if compl { res.neg() } else { res });""",
+         new="""                self.table
+                    .insert((f, h, g), if compl { res.neg() } else { res });"""),
+    dict(name="gl8-both-keys-reordered-ok", file="src/builder/cache/all_app.rs", rule="GL", props=["C16"], expect=None,
+         old="""                self.table
+                    .insert((f, g, h), if compl { res.neg() } else { res });""",
+         new="""                self.table
+                    .insert((g, f, h), if compl { res.neg() } else { res });""",
+         more=[("src/builder/cache/all_app.rs", """                let r = self.table.get(&(f, g, h));""", """                let r = self.table.get(&(g, f, h));""")]),
 ]
